@@ -78,6 +78,8 @@ type scCaseC struct {
 		Trace   bool   `json:"trace"`   // httptrace dump + trace
 	} `json:"side"`
 	Gun  string `json:"gun"`  // scncancel: http | grpc
+	N       int      `json:"n"`       // grpcfile: entries in the file
+	Pattern []string `json:"pattern"` // grpcfile: entry k is written as pattern[(k-1) % len] says: a tag | "" (no tag key) | "!" (not JSON)
 	When string `json:"when"` // scncancel: sleep | exchange | between
 }
 
@@ -365,6 +367,55 @@ func (e *scEnv) runCase(cs hwCase) {
 		path := e.writeFile(cs.ID, string(js)+"\n")
 		e.grpc.Calls()
 		e.viaProvider(map[string]interface{}{"type": "grpc/json", "file": path, "limit": 1, "passes": 1}, yamlShape, e.gun("grpc", gm, yamlShape, true), cs, e.grpc.Calls)
+	case "grpcfile":
+		// ONE heterogeneous grpc/json file through ONE provider and the real gun, as an engine instance does it:
+		// Acquire, Shoot, Release, entry after entry.  The provider decodes into pooled ammo objects (queue: 128):
+		// most of a file longer than that is shot with objects an earlier entry used (counted: End.note).
+		gm := map[string]interface{}{"type": "grpc", "target": e.grpc.Addr()}
+		var sb strings.Builder
+		for k := 0; k < c.N; k++ {
+			line := map[string]interface{}{"call": "target.TargetService.Hello", "payload": map[string]interface{}{"name": "code:0"}}
+			switch el := c.Pattern[k%len(c.Pattern)]; el {
+			case "!":
+				sb.WriteString(fmt.Sprintf("this is not json %d\n", k+1))
+				continue
+			case "":
+			default:
+				line["tag"] = el
+			}
+			js, _ := json.Marshal(line)
+			sb.Write(js)
+			sb.WriteByte('\n')
+		}
+		path := e.writeFile(cs.ID, sb.String())
+		gm["timeout"] = "120s" // a loaded machine must not turn a slow call into a deadline
+		g := e.gun("grpcfile", gm, yamlShape, true)
+		prov, err := hwDecodeProvider(map[string]interface{}{"type": "grpc/json", "file": path, "passes": 1, "continueonerror": true}, yamlShape)
+		if err != nil {
+			panic(fmt.Sprintf("case %d provider: %v", cs.ID, err))
+		}
+		stop := hwRunProvider(prov, e.zl)
+		e.log.emit(scEv{Ev: "Provider"})
+		e.grpc.Calls()
+		e.log.emit(scEv{Ev: "Begin", Inst: "m2", CaseID: cs.ID, C: cs.C})
+		seenObj := map[core.Ammo]bool{}
+		recycled := 0
+		for k := 0; k < c.N; k++ {
+			a, ok := prov.Acquire()
+			if !ok {
+				break
+			}
+			if seenObj[a] {
+				recycled++
+			}
+			seenObj[a] = true
+			g.Shoot(a)
+			prov.Release(a)
+		}
+		e.log.emit(scEv{Ev: "End", Inst: "m2", CaseID: cs.ID, Note: fmt.Sprintf("recycled=%d calls=%d", recycled, len(e.grpc.Calls()))})
+		if err := stop(); err != nil {
+			panic(fmt.Sprintf("case %d provider run: %v", cs.ID, err))
+		}
 	case "grpcfail":
 		// statuses the CLIENT produces: nobody listens at the target (reflection is served elsewhere), or the
 		// target never answers within the gun's timeout
